@@ -13,6 +13,8 @@ package c03
 import (
 	"fmt"
 	"reflect"
+	"regexp"
+	"runtime/debug"
 	"sort"
 	"strings"
 	"time"
@@ -66,6 +68,12 @@ type env struct {
 	shapes  []string
 	info    map[string]interface{}
 	readRot int
+	emitted map[string]bool
+	// set once the corresponding deviation was reported in this database, so that the rest of the
+	// plan still exercises everything else
+	gapOK          bool
+	noNilSerGroups bool
+	modelMapBroken bool
 }
 
 func (e *env) tx() *gorm.DB {
@@ -97,12 +105,18 @@ func (e *env) problem(sig, f string, a ...interface{}) {
 // flush emits one violation per signature collected during the current call.
 func (e *env) flush() {
 	for _, sig := range e.sigs {
+		e.failed = true
+		if e.emitted[sig] {
+			// the same class again in the same database: counted, not reported a second time
+			e.c.Inc("repeated_in_same_database")
+			continue
+		}
+		e.emitted[sig] = true
 		d := map[string]interface{}{"mode": e.opt, "table": e.m.table, "model": e.m.desc, "operations": append([]string(nil), e.ops...), "problems": e.viol[sig]}
 		for k, v := range e.info {
 			d[k] = v
 		}
 		e.c.Violation(sig, d)
-		e.failed = true
 	}
 	e.viol = map[string][]string{}
 	e.sigs = nil
@@ -173,6 +187,15 @@ func (e *env) newRec(shape string, idx int, keyMode string, fnZero map[int]bool,
 		for _, g := range m.groups {
 			rc.nilGrp[g] = r.Chance(1, 3)
 		}
+		for _, l := range m.leaves {
+			// a function-default leaf that this call sets non-zero must exist in every record;
+			// after the nil-embedded-pointer/serializer deviation was reported, stop provoking it
+			if (l.defFn != "" && !fnZero[l.ord]) || (e.noNilSerGroups && (l.class == "gob" || l.class == "unixtime")) {
+				for _, g := range l.ptrGroups {
+					rc.nilGrp[g] = false
+				}
+			}
+		}
 	}
 	composite := len(m.pks) > 1
 	for _, l := range m.leaves {
@@ -190,7 +213,7 @@ func (e *env) newRec(shape string, idx int, keyMode string, fnZero map[int]bool,
 		case l.auto:
 			switch keyMode {
 			case "big":
-				e.big += int64(r.Range(1, 3))
+				e.big += int64(r.Range(8, 10)) // farther apart than one call can generate keys in between
 				v = reflect.New(l.typ).Elem()
 				setNum(v, e.big)
 				rc.preset = true
@@ -522,7 +545,11 @@ func (e *env) checkReads(rc *rec) {
 	}
 	// map destination
 	mp := map[string]interface{}{}
-	switch e.readRot % 3 {
+	rot := e.readRot % 3
+	if e.modelMapBroken {
+		rot = 2
+	}
+	switch rot {
 	case 0:
 		how = fmt.Sprintf("%s.Model(&T{}).Where(%q, %v).Take(&map)", e.recv(), where, rc.pkArgs)
 		res = e.tx().Model(e.newModelPtr()).Where(where, rc.pkArgs...).Take(&mp)
@@ -534,11 +561,27 @@ func (e *env) checkReads(rc *rec) {
 		res = e.h.DB.Table(e.m.table).Where(where, rc.pkArgs...).Take(&mp)
 	}
 	if res.Error != nil {
-		e.problem("read-map/error", "%s: %v", how, res.Error)
+		e.problem(e.mapErrSig(res.Error), "%s: %v", how, res.Error)
 	} else {
 		e.compareMap(rc, mp, how)
 		e.c.Inc("map_reads")
 	}
+}
+
+var scanErrCol = regexp.MustCompile(`Scan error on column index \d+, name "([^"]+)"`)
+
+// mapErrSig classifies an error of a map read: a scan error on the column of a serializer field
+// (gorm allocates the field's Go type as scan destination when a Model is set) is one class.
+func (e *env) mapErrSig(err error) string {
+	if mm := scanErrCol.FindStringSubmatch(err.Error()); mm != nil {
+		for _, l := range e.m.leaves {
+			if l.col == mm[1] && l.serializer != "" {
+				e.modelMapBroken = true
+				return "read-map/model-with-serializer-field/" + l.serializer
+			}
+		}
+	}
+	return "read-map/error"
 }
 
 // ---- create shapes -----------------------------------------------------------------------------------
@@ -546,12 +589,26 @@ func (e *env) checkReads(rc *rec) {
 var structShapes = []string{"single", "slice-values", "slice-pointers", "slice-pointers-byvalue", "batches-values", "batches-pointers"}
 var mapShapes = []string{"map", "map-pointer", "maps", "maps-pointer"}
 
+// liftBig moves the next explicit key above everything the table holds (the harness reads the
+// sequence state so that its own preset keys never collide with generated ones).
+func (e *env) liftBig() {
+	if e.m.auto == nil {
+		return
+	}
+	if ids := vdb.Ints(e.h.SQL, "SELECT coalesce(max(`"+e.m.auto.col+"`),0) FROM `"+e.m.table+"`"); len(ids) == 1 && e.big < ids[0]+10 {
+		e.big = ids[0] + 10
+	}
+}
+
 func (e *env) runStructShape(shape string, forceKey string) {
 	r := e.r
 	m := e.m
+	if forceKey == "" {
+		e.liftBig()
+	}
 	n := 1
 	if shape != "single" {
-		n = core.Pick(r, []int{1, 2, 2, 3, 3, 4, 5, 6})
+		n = core.Pick(r, []int{1, 2, 2, 3, 3, 4, 5, 6}) // < 8: see the spacing of explicit keys
 	}
 	// key modes of the call
 	modes := make([]string, n)
@@ -573,7 +630,7 @@ func (e *env) runStructShape(shape string, forceKey string) {
 			switch callMode {
 			case "mixed":
 				modes[i] = core.Pick(r, []string{"zero", "zero", "gap", "big"})
-				if modes[i] == "gap" && e.gap >= 45 {
+				if modes[i] == "gap" && (e.gap >= 45 || !e.gapOK) {
 					modes[i] = "big"
 				}
 				some = some || modes[i] != "zero"
@@ -655,6 +712,21 @@ func (e *env) runStructShape(shape string, forceKey string) {
 		if mixed {
 			sig = "create-error/mixed-preset-keys/" + e.opt
 		}
+		// a gob / unixtime serializer field below a nil pointer-embedded struct
+		msg := res.Error.Error()
+		for _, cl := range []string{"gob", "unixtime"} {
+			if (cl == "gob" && !strings.Contains(msg, "gob: cannot encode nil value")) || (cl == "unixtime" && !strings.Contains(msg, "invalid field type <nil> for UnixSecondSerializer")) {
+				continue
+			}
+			for _, rc := range recs {
+				for _, l := range m.leaves {
+					if l.class == cl && !rc.given[l.ord].IsValid() {
+						sig = "create-error/serializer-below-nil-embedded-pointer/" + cl
+						e.noNilSerGroups = true
+					}
+				}
+			}
+		}
 		e.problem(sig, "Create returned %v", res.Error)
 		e.flush()
 		return
@@ -708,6 +780,7 @@ func (e *env) mapValue(l *leaf, gv reflect.Value) interface{} {
 func (e *env) runMapShape(shape string) {
 	r := e.r
 	m := e.m
+	e.liftBig()
 	n := 1
 	if strings.HasPrefix(shape, "maps") {
 		n = r.Range(1, 4)
@@ -773,6 +846,9 @@ func (e *env) runMapShape(shape string) {
 	}
 	e.c.Add("records_created", n)
 	e.c.Add("records_created_from_maps", n)
+	if len(maps) != n {
+		e.problem("key-backfill/"+shape+"/"+e.opt, "the slice handed to Create held %d maps, it holds %d after Create; appended: %v", n, len(maps), maps[n:])
+	}
 	for _, rc := range recs {
 		rc.pkArgs = nil
 		for _, l := range m.pks {
@@ -888,7 +964,7 @@ func (e *env) finalFind() {
 			err = e.h.DB.Table(m.table).Find(&ms).Error
 		}
 		if err != nil {
-			e.problem("read-map/error", "%s: %v", how, err)
+			e.problem(e.mapErrSig(err), "%s: %v", how, err)
 			continue
 		}
 		check(how, len(ms), func(i int) (string, func(*rec)) {
@@ -915,13 +991,39 @@ var opts = []optSpec{
 	{"lastinsertid-first", vdb.Options{FirstID: true, NoReturning: true}},
 }
 
-func runEnv(c *core.Ctx, m *model, o optSpec, feats []string, info map[string]interface{}) bool {
+func panicStack() []string {
+	lines := strings.Split(string(debug.Stack()), "\n")
+	var out []string
+	for _, l := range lines {
+		if strings.Contains(l, "/repo/") {
+			out = append(out, strings.TrimSpace(l))
+		}
+	}
+	if len(out) > 14 {
+		out = out[:14]
+	}
+	return out
+}
+
+func runEnv(c *core.Ctx, m *model, o optSpec, feats []string, info map[string]interface{}) (ok bool) {
 	h, err := vdb.Open(o.o)
 	if err != nil {
 		panic(err)
 	}
 	defer h.Close()
-	e := &env{c: c, r: c.R.Fork(), h: h, m: m, opt: o.name, ret: !o.o.NoReturning, firstID: o.o.FirstID, viol: map[string][]string{}, big: 1000, info: info}
+	var e *env
+	defer func() {
+		if p := recover(); p != nil {
+			msg := fmt.Sprint(p)
+			d := map[string]interface{}{"panic": msg, "mode": o.name, "table": m.table, "model": m.desc, "features": feats, "stack": panicStack()}
+			if e != nil {
+				d["operations"] = e.ops
+			}
+			c.Violation("panic/"+msg, d)
+			ok = false
+		}
+	}()
+	e = &env{c: c, r: c.R.Fork(), h: h, m: m, opt: o.name, ret: !o.o.NoReturning, firstID: o.o.FirstID, viol: map[string][]string{}, emitted: map[string]bool{}, big: 1000, info: info}
 	c.Logf("MODE %s table %s", o.name, m.table)
 	if err := e.tx().AutoMigrate(e.newModelPtr()); err != nil {
 		e.op("%s.AutoMigrate(&T{}) -> %v", e.recv(), err)
@@ -953,13 +1055,20 @@ func runEnv(c *core.Ctx, m *model, o optSpec, feats []string, info map[string]in
 	plan = append(plan, mapShapes...)
 	plan = append(plan, core.Pick(e.r, structShapes[1:]))
 	p := e.r.Perm(len(plan))
+	// a single Create goes first: a panic inside gorm is then met outside a Transaction block
 	if m.auto != nil {
-		// reserve: an explicit key above the sequence start leaves keys 1..49 free for later "gap" presets
-		e.big = 49
+		// an explicit key above the sequence start leaves keys 1..49 free for later "gap" presets
+		e.big = 42
 		e.runStructShape("single", "big")
+		e.gapOK = len(e.all) == 1 // only then are the keys below it known to be free
 		e.big = 1000
+	} else {
+		e.runStructShape("single", "")
 	}
 	for _, i := range p {
+		if plan[i] == "maps" {
+			continue
+		}
 		c.Logf("SHAPE %s", plan[i])
 		if strings.HasPrefix(plan[i], "map") {
 			e.runMapShape(plan[i])
@@ -968,6 +1077,9 @@ func runEnv(c *core.Ctx, m *model, o optSpec, feats []string, info map[string]in
 		}
 	}
 	e.finalFind()
+	// Create([]map) by value goes last: where it panics inside gorm, the database handle is lost
+	c.Logf("SHAPE maps")
+	e.runMapShape("maps")
 	if e.failed {
 		return false
 	}
@@ -1043,6 +1155,7 @@ var Engine = &core.Engine{
 		return 400
 	},
 	Batch:         func(string) int { return 25 },
+	ChildTimeoutS: 300,
 	Run:           run,
 	MinNontrivial: 300,
 }
